@@ -24,8 +24,8 @@ var UserIfaces = map[string]bool{"Extension": true, "FieldResolver": true}
 func UserCallback(ci ssa.CallInstruction) string {
 	cc := ci.Common()
 	if cc.IsInvoke() {
-		if n := NamedOf(cc.Value.Type()); n != nil && n.Obj().Pkg() != nil && n.Obj().Pkg().Path() == ModPath && UserIfaces[n.Obj().Name()] {
-			return n.Obj().Name() + "." + cc.Method.Name()
+		if n := NamedOf(cc.Value.Type()); n != nil && n.Obj().Pkg() != nil && n.Obj().Pkg().Path() == ModPath && UserIfaces[N(n.Obj())] {
+			return N(n.Obj()) + "." + N(cc.Method)
 		}
 		return ""
 	}
@@ -37,8 +37,8 @@ func UserCallback(ci ssa.CallInstruction) string {
 	}
 	t := cc.Value.Type()
 	if n, ok := t.(*types.Named); ok {
-		if n.Obj().Pkg() != nil && n.Obj().Pkg().Path() == ModPath && UserFuncTypes[n.Obj().Name()] {
-			return n.Obj().Name()
+		if n.Obj().Pkg() != nil && n.Obj().Pkg().Path() == ModPath && UserFuncTypes[N(n.Obj())] {
+			return N(n.Obj())
 		}
 		return ""
 	}
